@@ -145,6 +145,13 @@ func wswriteGen(r *rng, maxops int, w *bufio.Writer) {
 		case 0, 1, 2, 3:
 			fmt.Fprintf(w, "! %swrite %s %s\n", pre, []string{"text", "binary"}[r.intn(2)], wswritePayload(r, max))
 		case 4, 5:
+			if r.intn(6) == 0 {
+				// a payload-less frame from the public constructor NewFrame() instead of the stream's pool. (With a payload such
+				// a frame is outside the documented usage: AcquireFrame reserves the room of the masking key before
+				// SetPayload, NewFrame does not, and the key then overwrites the payload.)
+				fmt.Fprintf(w, "! %sframe %d %d none fresh\n", pre, r.pick(9, 10, 1, 2, 0), r.pick(1, 1, 0))
+				break
+			}
 			fmt.Fprintf(w, "! %sframe %d %d %s%s\n", pre, r.pick(9, 9, 10, 1, 2, 0), r.pick(1, 1, 1, 0), ctlPayload(),
 				wswPick(r, "", "", "", " retype=1", " retype=2", " retype=9", " retype=10", " retype=8"))
 		case 6:
@@ -283,6 +290,11 @@ func wswriteRun(script []string, w *bufio.Writer) {
 		cb := func(err error) { cbs = append(cbs, fmt.Sprintf("%d:%s", idx, wswErrName(err))) }
 		build := func() *websocket.Frame {
 			fr := s.AcquireFrame()
+			if len(f) > 4 && f[4] == "fresh" {
+				// a frame from the public constructor instead of the stream's pool (nothing has touched its header yet)
+				nf := websocket.NewFrame()
+				fr = &nf
+			}
 			flen = len(*fr)
 			if f[2] == "1" {
 				fr.SetFIN()
